@@ -10,6 +10,8 @@ import Driver.Init
 import Driver.MinerPenalty
 import Driver.Dispatch
 import Driver.EvmMachine
+import Driver.Partition
+import Driver.Power
 
 /-- generic stdin/stdout loop over a pure handler -/
 partial def loop {σ : Type} (h : IO.FS.Stream) (out : IO.FS.Stream) (step : σ → String → σ × String)
@@ -25,6 +27,7 @@ def main (args : List String) : IO UInt32 := do
   let stdin ← IO.getStdin
   let stdout ← IO.getStdout
   match args with
+  | ["partition"] => loop stdin stdout Driver.Partition.handle default; return 0
   | ["paych"] => loop stdin stdout Driver.Paych.handle (BA.Paych.init 0 0); return 0
   | ["vm"] => loop stdin stdout Driver.VM.handle (); return 0
   | ["minerledger"] => loop stdin stdout Driver.MinerLedger.handle []; return 0
@@ -38,4 +41,5 @@ def main (args : List String) : IO UInt32 := do
   | ["minerpenalty"] => loop stdin stdout Driver.MinerPenalty.handle (); return 0
   | ["dispatch"] => loop stdin stdout Driver.Dispatch.handle (); return 0
   | ["evmmachine"] => loop stdin stdout Driver.EvmMachine.handle (); return 0
+  | ["power"] => loop stdin stdout Driver.Power.handle Driver.Power.dinit; return 0
   | _ => IO.eprintln "usage: driver <model>"; return 2
